@@ -39,6 +39,9 @@ type LockerIn struct {
 	Choices  []int        `json:"choices,omitempty"`
 	TailSeed uint64       `json:"tailSeed,omitempty"` // see Input.TailSeed
 	TailPct  int          `json:"tailPct,omitempty"`
+	PCTSeed  uint64       `json:"pctSeed,omitempty"` // see Input.PCTSeed
+	PCTDepth int          `json:"pctDepth,omitempty"`
+	PCTSpan  int          `json:"pctSpan,omitempty"`
 	// FineSites: statement-level scheduling points enabled in this run (fine-grained mode only).
 	FineSites []string `json:"fineSites,omitempty"`
 }
@@ -94,6 +97,8 @@ func RunLocker(t *testing.T, in *LockerIn, keepLog bool) *Result {
 		}
 	}
 	l := &lockerSim{in: in, sched: newSched(in.Choices, off, 3000), cur: map[*Task]*lockRec{}, counter: map[string]int{}, cancels: append([]LockCancel(nil), in.Cancels...)}
+	l.sched.tailSeed, l.sched.tailPct = in.TailSeed, in.TailPct
+	l.sched.pctSeed, l.sched.pctDepth, l.sched.pctSpan = in.PCTSeed, in.PCTDepth, in.PCTSpan
 	func() {
 		defer func() {
 			if e := recover(); e != nil {
@@ -109,7 +114,7 @@ func RunLocker(t *testing.T, in *LockerIn, keepLog bool) *Result {
 	verifhook.Hook = nil
 	verifhook.Dead = nil
 	runProgress.Add(1)
-	res := &Result{Violations: l.viols, Digest: l.sched.Digest(), Steps: l.sched.step, Preempts: l.sched.preempts, Counters: l.counter, HarnessErr: l.harness}
+	res := &Result{Violations: l.viols, Digest: l.sched.Digest(), Steps: l.sched.step, Preempts: l.sched.preempts, Counters: l.counter, HarnessErr: l.harness, Decisions: append([]int(nil), l.sched.made...)}
 	if keepLog {
 		res.Lines = l.sched.lines
 	}
@@ -598,9 +603,16 @@ func GenLockerIn(t *rapid.T) *LockerIn {
 			in.Choices = append(in.Choices, c)
 		}
 	}
-	if rapid.Bool().Draw(t, "hasTail") {
+	switch rapid.IntRange(0, 3).Draw(t, "schedStyle") {
+	case 0, 1:
 		in.TailSeed = rapid.Uint64().Draw(t, "tailSeed")
 		in.TailPct = rapid.SampledFrom([]int{5, 20, 50}).Draw(t, "tailPct")
+	case 2:
+		// priority scheduling from the first decision on
+		in.Choices = nil
+		in.PCTSeed = rapid.Uint64().Draw(t, "pctSeed")
+		in.PCTDepth = rapid.IntRange(1, 4).Draw(t, "pctDepth")
+		in.PCTSpan = rapid.SampledFrom([]int{20, 60, 150}).Draw(t, "pctSpan")
 	}
 	return in
 }
